@@ -224,14 +224,14 @@ class Impl:
         self.attrs = []
         # every third configuration is created the way a user does it: `NAME[@c/i/a]=TYPE[n]` on the simulator's command line,
         # through main() itself (the listener stubbed out), then given its initial values by plain element assignment
-        self.via_main = (all(t['scalar'] == (t['n'] == 1) for t in tags) and hash_list([len(tags)] + [t['n'] for t in tags]) % 3 == 0
+        self.via_main = (not any(t.get('int_init') for t in tags) and all(t['scalar'] == (t['n'] == 1) for t in tags) and hash_list([len(tags)] + [t['n'] for t in tags]) % 3 == 0
                          and all(ch.isalnum() or ch == '_' for t in tags for ch in t['name'])
                          and len({tuple(t['addr']) for t in tags if t.get('addr')}) == len([t for t in tags if t.get('addr')]))
         made = self._main_tags(tags) if self.via_main else None
         for t in tags:
             init = [py_val(v) for v in t['init']]
-            if t['ty'] in ('REAL', 'LREAL'):
-                init = [float(x) for x in init]
+            if t['ty'] in ('REAL', 'LREAL') and not t.get('int_init'):
+                init = [float(x) for x in init]          # (int_init: a REAL tag an application built from Python ints, [0]*n)
             if made is not None:
                 ent = dict.__getitem__(made, t['name'])
                 att = ent.attribute
